@@ -28,14 +28,53 @@ def ctx_name(c):
 
 def def_src(stmt, gen):
     names, sr = stmt.get("names"), stmt.get("sr")
-    args = []
-    if names is not None:
-        args += [repr(key_name(k)) for k in names]
-    if sr is not None:
-        args.append(f"supports_response={sr!r}")
-    dec = "@service" + (f"({', '.join(args)})" if args else "")
-    return [dec, f"def fn{stmt['fn']}(**kw):", "    kw.pop('context', None)",
-            f"    event.fire('pv_call', gen={gen}, kw=kw)", f"    return {{'gen': {gen}}}"]
+    if stmt["s"] == "defst":   # one @service decorator per name, stacked
+        decs = []
+        for k in names:
+            a = [repr(key_name(k))] + ([f"supports_response={sr!r}"] if sr is not None else [])
+            decs.append(f"@service({', '.join(a)})")
+    else:
+        args = []
+        if names is not None:
+            args += [repr(key_name(k)) for k in names]
+        if sr is not None:
+            args.append(f"supports_response={sr!r}")
+        decs = ["@service" + (f"({', '.join(args)})" if args else "")]
+    return decs + [f"def fn{stmt['fn']}(**kw):", "    kw.pop('context', None)",
+                   f"    event.fire('pv_call', gen={gen}, kw=kw)", f"    return {{'gen': {gen}}}"]
+
+
+class StateProxy:
+    """Stands in for `State` inside decorators/service.py.  ServiceDecorator.start() awaits State.get_service_params() after it
+    has registered its name; how long that takes depends on HA's description cache and an executor job, i.e. on real time.  Here
+    it is exactly one scheduling turn (`await asyncio.sleep(0)`), so concurrent start-ups interleave in a fixed round-robin
+    order; while `hold` is set the callers instead wait for `release()` - an operation can then be executed in the middle of the
+    start-ups (a particular interleaving of two tasks)."""
+
+    def __init__(self, state_cls):
+        self._state = state_cls
+        self.hold = False
+        self.event = None
+
+    def __getattr__(self, name):
+        return getattr(self._state, name)
+
+    def start_hold(self):
+        self.hold = True
+        self.event = asyncio.Event()
+
+    def stop_hold(self):
+        self.hold = False
+
+    def release(self):
+        if self.event is not None:
+            self.event.set()
+
+    async def get_service_params(self):
+        if self.hold:
+            await self.event.wait()
+        else:
+            await asyncio.sleep(0)
 
 
 async def collect_garbage(env):
@@ -61,10 +100,11 @@ class Life:
         """-> (text, {def line number: gen})"""
         lines, line2gen = [], {}
         for st in body:
-            if st["s"] == "def":
+            if st["s"] in ("def", "defst"):
                 self.gen += 1
                 src = def_src(st, self.gen)
-                line2gen[len(lines) + 2] = self.gen  # func_def.lineno is the `def` line
+                ndec = len([ln for ln in src if ln.startswith("@")])
+                line2gen[len(lines) + ndec + 1] = self.gen  # func_def.lineno is the `def` line
                 lines += src
             else:
                 lines.append(f"del fn{st['fn']}")
@@ -182,7 +222,11 @@ class Life:
             init_files[f"c{c}.py"] = src
             maps[ctx_name(int(c))] = l2g
             self.files[int(c)] = body
-        with patch.object(GlobalContext, "start", start_rec):
+        import custom_components.pyscript.decorators.service as svc_mod
+        from custom_components.pyscript.state import State
+
+        proxy = StateProxy(State)
+        with patch.object(GlobalContext, "start", start_rec), patch.object(svc_mod, "State", proxy):
             async with PyscriptEnv(files=init_files, legacy=case["legacy"]) as env:
                 await env.settle()
                 await collect_garbage(env)
@@ -198,8 +242,14 @@ class Life:
                         src, l2g = self.body_src(op["body"])
                         env.write(f"c{c}.py", src)
                         self.files[c] = op["body"]
+                        if op.get("hold"):
+                            proxy.start_hold()
                         await env.reload(ctx_name(c))
+                        proxy.stop_hold()
                         info["oracle"] = self.oracle({ctx_name(c): l2g})
+                    elif kind == "release":
+                        proxy.release()
+                        await env.settle()
                     elif kind == "unload":
                         c = op["ctx"]
                         if c in self.files:
